@@ -18,6 +18,9 @@ GAP = 0.03     # every edit keeps >= 30 ms from the instants it is compared with
 def edit_cmd(kind, path, size, workdir):
     q = shlex.quote(path)
     new = shlex.quote(os.path.join(workdir, "newer_target"))
+    # the member is replaced by a symbolic link that ends at another member of the group (the data it then shows is only there)
+    d_, sib = os.path.dirname(path), {"a": "c", "b": "a", "c": "a"}.get(os.path.basename(path), "a")
+    hop = shlex.quote(os.path.join(d_, "sub", "hop-" + os.path.basename(path)))
     body = {
         "same-len": f"head -c {size} /dev/zero | tr '\\0' 'Q' > {q}",
         "other-len": f"head -c {size + 7} /dev/zero | tr '\\0' 'R' > {q}",
@@ -30,6 +33,9 @@ def edit_cmd(kind, path, size, workdir):
         "symlink-dir": f"rm -f {q}; ln -s {shlex.quote(workdir)} {q}",
         "symlink-newer": f"rm -f {q}; head -c {size} /dev/zero | tr '\\0' 'T' > {new}; ln -s {new} {q}",
         "touch": f"touch {q}",
+        "symlink-sibling": f"rm -f {q}; ln -s {sib} {q}",
+        "symlink-sibling-chain": f"rm -f {q}; mkdir -p {shlex.quote(os.path.join(d_, 'sub'))}; ln -sf ../{sib} {hop}; ln -s sub/{'hop-' + os.path.basename(path)} {q}",
+        "symlink-sibling-dotdot": f"rm -f {q}; ln -s ../{os.path.basename(d_)}/{sib} {q}",
     }[kind]
     return f"sleep {GAP}; {body}; sleep {GAP}"
 
@@ -54,7 +60,9 @@ def run_history(t):
         betw = [e for e in scen["edits"] if e["pos"] == "between"]
         plan = ";;".join(f"close|/g/{e['f']}|{e['pos'][3:]}|runafter={edit_cmd(e['kind'], os.path.join(g, e['f']), size, work)}" for e in mids)
         senv = lib.shim_env(env, log_path=os.path.join(work, "shim.log"), root=base, plan=plan or None) if mids else env
-        r = lib.run_fclones(["group", "b", "-f", fmt], work, senv)
+        # (a link to another member only matters if link and target are not one replica: hard links / links reported as duplicates)
+        gextra = ["-H"] if any(e["kind"].startswith("symlink-sibling") for e in scen["edits"]) and k % 3 else []
+        r = lib.run_fclones(["group", "b", "-f", fmt] + gextra, work, senv)
         if r.rc != 0:
             return {"k": k, "scen": scen, "skip": "group failed: " + r.err.decode("utf-8", "replace")[-200:]}
         report = r.out
